@@ -10,7 +10,7 @@
 (* confirms it by re-recording that single input in a fresh process.       *)
 (*                                                                         *)
 (* Events (floats are keys, see Bounds.tla):                               *)
-(*  hdr  pi, npi                                  keys of +pi and -pi      *)
+(*  hdr  pi, npi, halfpi, nhalfpi                 keys of +-pi and +-pi/2  *)
 (*  reg  kind, rect = <<latLo,latHi,lngLo,lngHi>>, capr (cap radius as     *)
 (*       chord length^2), cov = <<rangeMin,rangeMax>>*, w2 = shell/holes   *)
 (*       of a grid region or <<>>, tri = lattice triangle or <<>>, inv     *)
@@ -61,10 +61,12 @@ Premise(e, r) == e.own \/ Certified(e, r)
 \* The verdict is strict.  In the confirmation pass the name of a rejected bound relation gets
 \* a magnitude suffix: "-ulp" if the witness coordinates moved by 1e-14 (slack_u, logged by the
 \* harness) satisfy the relation, "-small" if 1e-6 (slack_s) suffices, none otherwise.
+\* (at a pole, i.e. latitude within the slack of +-pi/2, the longitude carries no information)
 NearRect(r, e, sl) ==
     /\ FLeq(sl.latm, r[2]) /\ FLeq(r[1], sl.latp)
     /\ \/ S1Has(r[3], r[4], e.lng, PI, NPI) \/ S1Has(r[3], r[4], sl.lngm, PI, NPI) \/ S1Has(r[3], r[4], sl.lngp, PI, NPI)
        \/ S1Has(sl.lngm, sl.lngp, r[3], PI, NPI)
+       \/ FLeq(Hdr.halfpi, sl.latp) \/ FLeq(sl.latm, Hdr.nhalfpi)
 Suffix(near_u, near_s) == IF ~Detail THEN "" ELSE IF near_u THEN "-ulp" ELSE IF near_s THEN "-small" ELSE ""
 
 WitRej(e, r) ==
